@@ -91,6 +91,8 @@ class Module:
         from . import canon, normal
         normal.normalise(self.tree)
         self.canon_renamed = canon.apply(self.tree, self.name)
+        if self.name == "parser":
+            canon.name_cursor_parameters(self.tree)
         self.classes = {}
         self.funcs = {}
         self.imports = {}        # local name -> dotted origin ("os", "ckl.values.ValueInt")
